@@ -1,7 +1,8 @@
 (* C06 - property theorems only.  [read], [check_header false], [to_str] are the
    Gallina model (C06_Model) of Haplotypes.read / check_header / to_str after
    fixes/C06_short_comment.patch and fixes/C06_norecords_header.patch. *)
-From HV Require Import Prelude C06_Model C06_Check C06_Proofs C06_Proofs2 C06_Proofs3 C06_Proofs4 C06_Proofs5.
+From HV Require Import Prelude C06_Model C06_Check C06_Proofs C06_Proofs2 C06_Proofs3 C06_Proofs4 C06_Proofs5
+  C06_Proofs6 C06_Proofs7 C06_Proofs8 C06_Proofs9 C06_Proofs10 C06_Proofs11 C06_Proofs12.
 
 (* ---- comment lines ---------------------------------------------------------- *)
 
@@ -170,22 +171,276 @@ Theorem C06_holds_missing_soft_sound :
 Proof. exact holds_missing_soft_sound. Qed.
 Print Assumptions C06_holds_missing_soft_sound.
 
+(* ---- binding composed with header parsing ------------------------------------------------ *)
+
+(* for every accepted header the types dict of a line type is the reordering by the
+   columns the header lines give it (last order line, else declaration lines in order) *)
+Theorem C06_types_follow_header :
+  forall c cv softly hs st t,
+  check_header false c cv softly hs = Ok st ->
+  types_for c st t = field_types (base_types c t) (columns hs t).
+Proof. exact types_follow_header. Qed.
+Print Assumptions C06_types_follow_header.
+
+Theorem C06_header_binds_by_name :
+  forall c cv softly hs st t toks vals,
+  check_header false c cv softly hs = Ok st ->
+  wf_columns c t (columns hs t) = true ->
+  from_spec c t (types_for c st t) toks = Ok vals ->
+  expected_vals c t (columns hs t) toks = Ok vals.
+Proof. exact header_binds_by_name. Qed.
+Print Assumptions C06_header_binds_by_name.
+
+(* ---- _get_field_types for every column list --------------------------------------------------- *)
+
+Theorem C06_field_types_characterised :
+  forall d cols, NoDup (keys d) ->
+  field_types d cols = filter (notin cols) d ++ moved d (keep_last cols).
+Proof. exact field_types_characterised. Qed.
+Print Assumptions C06_field_types_characterised.
+
+Theorem C06_field_types_repeats :
+  forall d cols, NoDup (keys d) -> field_types d cols = field_types d (keep_last cols).
+Proof. exact field_types_repeats. Qed.
+Print Assumptions C06_field_types_repeats.
+
+Example C06_malformed_order_examples :
+  let a := [97] in let b := [98] in
+  let c := mkcfg (mkcls [(a, TInt); (b, TInt)] [mkx a [100] []; mkx b [100] []]) (mkcls [] []) (mkcls [] [])
+                 [48; 46; 50; 46; 48] in
+  field_types (base_types c cH) [a; b; a] = field_types (base_types c cH) [b; a]
+  /\ wf_columns c cH [a; b; a] = false
+  /\ map fst (field_types (base_types c cH) [s_start; a; b]) = [s_chrom; s_end; s_id; s_start; a; b]
+  /\ wf_columns c cH [s_start; a; b] = false.
+Proof. exact malformed_order_examples. Qed.
+Print Assumptions C06_malformed_order_examples.
+
 (* ---- round trip ---------------------------------------------------------------------------
+   clean_cfg  : no tab in the version string and in the names of the extra fields
+   wf_cfg     : the _extras tuple of each class names exactly its extra dataclass fields,
+                once each, none of them a mandatory field
+   wf_data    : every record is a haplotype, or a repeat without variants; it has one value
+                per attribute; its key is its id; ids are distinct
+   codec_data : every written text converts back (str / int / float of the reader) to the
+                value it was formatted from
+   The field texts themselves are tokens of the model; that a token list is what the
+   reader's split of the written characters gives is C06_text_layer_roundtrip
+   (precondition clean_text: no tab, newline, carriage return). *)
 
-   Full statements (not proved at file level; validated on every run by the
-   `roundtrip` relation, whose agree/holds are evaluated on the implementation):
+(* the header to_str emits is accepted without any report and gives every line type the
+   column order of the writer's _extras *)
+Theorem C06_emitted_header_ok :
+  forall c softly, clean_cfg c ->
+  exists st, check_header false c true softly (hdr_strs c) = Ok st
+    /\ hs_logs st = []
+    /\ forall t, is_type_letter t = true ->
+         types_for c st t = field_types (base_types c t) (extras_order (cls_of c t)).
+Proof. exact emitted_header_ok. Qed.
+Print Assumptions C06_emitted_header_ok.
 
-     hap_roundtrip :
-       wf_cfg c = true -> wf_data c d = true -> (codec contract for every field of d) ->
-       exists lines, to_str c d = Ok lines /\ read c None lines = Ok (strip_data d, [])
-     write_read_write_idem :
-       ... -> to_str c (reformat (read c None lines)) = Ok lines
+Example C06_unclean_name_refuted :
+  let bad := [97; 9; 98] in
+  let c := mkcfg (mkcls [(bad, TStr)] [mkx bad [115] []]) (mkcls [] []) (mkcls [] []) [48; 46; 50; 46; 48] in
+  wf_cfg c = true
+  /\ columns (hdr_strs c) cH = [[97]; [98]]
+  /\ columns (hdr_strs c) cH <> extras_order (cls_of c cH)
+  /\ missing_spec c (hdr_strs c) <> [].
+Proof. exact unclean_name_refuted. Qed.
+Print Assumptions C06_unclean_name_refuted.
 
-   Proved: the per-record-line core of the first (to_hap_spec then from_hap_spec
-   under the header to_str emits is the identity on attribute values), the
-   reduction of the second to the codec contract (to_str depends on the
-   collection only through keys, kinds, structure and formatted texts), and a
-   worked instance of the file-level statement closed by computation. *)
+(* whole files, all collections: what to_str writes, read reads back - the same records in
+   the same order, the same field values, every variant under its haplotype in the
+   written order, no warning *)
+Theorem C06_hap_roundtrip :
+  forall c d,
+  wf_cfg c = true -> clean_cfg c -> wf_data c d = true -> codec_data c d ->
+  exists lines, to_str c d = Ok lines /\ read c None lines = Ok (strip_data d, []).
+Proof. exact hap_roundtrip_file. Qed.
+Print Assumptions C06_hap_roundtrip.
+
+Theorem C06_hap_roundtrip_b :
+  forall c d, rt_pre c d = true ->
+  exists lines, to_str c d = Ok lines /\ read c None lines = Ok (strip_data d, []).
+Proof. exact hap_roundtrip_file_b. Qed.
+Print Assumptions C06_hap_roundtrip_b.
+
+(* values preserved up to their declared format, and the second write: d0 is any collection,
+   d the collection of the same texts holding the values the texts convert to *)
+Theorem C06_hap_roundtrip_up_to_format :
+  forall c d0 d,
+  wf_cfg c = true -> clean_cfg c -> Forall2 same_toks_entry d0 d ->
+  wf_data c d = true -> codec_data c d ->
+  exists lines,
+    to_str c d0 = Ok lines
+    /\ read c None lines = Ok (strip_data d, [])
+    /\ forall d2, Forall2 same_toks_entry d d2 -> to_str c d2 = Ok lines.
+Proof. exact hap_roundtrip_up_to_format. Qed.
+Print Assumptions C06_hap_roundtrip_up_to_format.
+
+Theorem C06_write_read_write_idem :
+  forall c d lines,
+  wf_cfg c = true -> clean_cfg c -> wf_data c d = true -> codec_data c d ->
+  to_str c d = Ok lines ->
+  read c None lines = Ok (strip_data d, [])
+  /\ forall d2, strip_data d2 = strip_data d -> Forall2 same_toks_entry d d2 -> to_str c d2 = Ok lines.
+Proof. exact write_read_write_idem. Qed.
+Print Assumptions C06_write_read_write_idem.
+
+Example C06_rt_pre_example : rt_pre ex_cfg ex_data = true.
+Proof. exact rt_pre_example. Qed.
+Print Assumptions C06_rt_pre_example.
+
+Example C06_up_to_format_example :
+  Forall2 same_toks_entry ex_data0 ex_data1
+  /\ rt_pre ex_cfg ex_data1 = true
+  /\ rt_pre ex_cfg ex_data0 = false
+  /\ strip_data ex_data0 <> strip_data ex_data1
+  /\ to_str ex_cfg ex_data0 = to_str ex_cfg ex_data1.
+Proof. exact up_to_format_example. Qed.
+Print Assumptions C06_up_to_format_example.
+
+(* a reader whose classes ask for fewer extras (names_sub: any sub-selection of the writer's
+   names, in any order of fields and _extras): the unrequested columns are skipped, every
+   requested attribute gets the value written under its name (proj / strip_data2) *)
+Theorem C06_emitted_header_ok_subreader :
+  forall wc rc softly,
+  clean_cfg wc -> cfg_version rc = cfg_version wc -> names_sub rc wc ->
+  exists st, check_header false rc true softly (hdr_strs wc) = Ok st
+    /\ hs_logs st = []
+    /\ forall t, is_type_letter t = true ->
+         types_for rc st t = field_types (base_types rc t) (extras_order (cls_of wc t)).
+Proof. exact emitted_header_ok2. Qed.
+Print Assumptions C06_emitted_header_ok_subreader.
+
+Theorem C06_hap_roundtrip_subreader :
+  forall wc rc, wf_cfg wc = true -> wf_cfg rc = true -> names_sub rc wc ->
+  forall d, clean_cfg wc -> cfg_version rc = cfg_version wc ->
+  wf_data wc d = true -> codec_data2 wc rc d ->
+  exists lines, to_str wc d = Ok lines /\ read rc None lines = Ok (strip_data2 wc rc d, []).
+Proof. exact hap_roundtrip_subreader. Qed.
+Print Assumptions C06_hap_roundtrip_subreader.
+
+Theorem C06_hap_roundtrip_subreader_b :
+  forall wc rc d, rt_pre2 wc rc d = true ->
+  exists lines, to_str wc d = Ok lines /\ read rc None lines = Ok (strip_data2 wc rc d, []).
+Proof. exact hap_roundtrip_subreader_b. Qed.
+Print Assumptions C06_hap_roundtrip_subreader_b.
+
+Example C06_subreader_example :
+  rt_pre2 ex_cfg ex_rcfg ex_data = true
+  /\ exists lines, to_str ex_cfg ex_data = Ok lines
+       /\ read ex_rcfg None lines = Ok (strip_data2 ex_cfg ex_rcfg ex_data, [])
+       /\ strip_data2 ex_cfg ex_rcfg ex_data
+          = [ (1, mkobj cH [VStr 10; VInt 5; VInt 9; VStr 1; VFlt 60]
+                       [[VInt 5; VInt 6; VStr 16; VStr 17]; [VInt 8; VInt 9; VStr 20; VStr 17]]);
+              (2, mkobj cR [VStr 10; VInt 5; VInt 6; VStr 2] []);
+              (3, mkobj cH [VStr 10; VInt 0; VInt 9; VStr 3; VFlt 62] [[VInt 0; VInt 5; VStr 25; VStr 17]]) ].
+Proof. exact subreader_example. Qed.
+Print Assumptions C06_subreader_example.
+
+(* the reader stores V lines under their haplotype id: where they stand among the H / R
+   lines is irrelevant (canon: all other lines first, then the V lines, both in file order) *)
+Theorem C06_read_line_order_independent :
+  forall c sel hdr ls r,
+  Forall is_rec ls ->
+  read c sel (map LHash hdr ++ ls) = Ok r ->
+  read c sel (map LHash hdr ++ canon ls) = Ok r.
+Proof. exact read_line_order_independent. Qed.
+Print Assumptions C06_read_line_order_independent.
+
+Example C06_v_before_h_example :
+  let hdr := [[35; 9; 118; 101; 114; 115; 105; 111; 110; 9; 48; 46; 50; 46; 48]] in
+  let h := LRec cH cTAB [tn 0; ti 1 10 2; ti 3 20 4; tn 5] in
+  let v := LRec cV cTAB [tn 5; ti 1 10 2; ti 6 11 7; tn 8; tn 9] in
+  read cfg0 None (map LHash hdr ++ [v; h])
+  = Ok ([(5, mkobj cH [VStr 0; VInt 10; VInt 20; VStr 5] [[VInt 10; VInt 11; VStr 8; VStr 9]])], [])
+  /\ canon [v; h] = [h; v].
+Proof. exact v_before_h_example. Qed.
+Print Assumptions C06_v_before_h_example.
+
+Example C06_v_without_h_example :
+  let v := LRec cV cTAB [tn 5; ti 1 10 2; ti 6 11 7; tn 8; tn 9] in
+  read cfg0 None [v] = Err ErrKey.
+Proof. exact v_without_h_example. Qed.
+Print Assumptions C06_v_without_h_example.
+
+(* ---- the text under the tokens ---------------------------------------------------------------- *)
+
+Theorem C06_text_layer_roundtrip :
+  forall (hdr : list str) (recs : list (Z * list str)),
+  (forall h, In h hdr -> ~ In cNL h /\ ~ In cCR h) ->
+  (forall k fs, In (k, fs) recs -> k <> cNL /\ k <> cCR /\ fs <> [] /\ forall w, In w fs -> clean_text w) ->
+  let lines := hdr ++ map (fun kf => rec_text (fst kf) (snd kf)) recs in
+  file_lines (file_text lines) = lines
+  /\ forall k fs, In (k, fs) recs -> line_fields (rec_text k fs) = fs.
+Proof. exact text_layer_roundtrip. Qed.
+Print Assumptions C06_text_layer_roundtrip.
+
+Example C06_text_layer_example :
+  let hdr := [[35; 9; 118; 101; 114; 115; 105; 111; 110; 9; 48; 46; 50; 46; 48]] in
+  let recs := [(cH, [[49]; [49; 48]; [50; 48]; [104; 32; 49]]); (cV, [[104; 32; 49]; [49; 48]; [49; 49]; [118]; [65]])] in
+  let lines := hdr ++ map (fun kf => rec_text (fst kf) (snd kf)) recs in
+  file_lines (file_text lines) = lines
+  /\ map line_fields (skipn 1 lines) = map snd recs.
+Proof. exact text_layer_example. Qed.
+Print Assumptions C06_text_layer_example.
+
+Example C06_unclean_text_refuted :
+  let tab := [[49]; [49; 48]; [50; 48]; [97; 9; 98]] in
+  let nl := rec_text cH [[49]; [49; 48]; [50; 48]; [97; 10; 98]] in
+  let cr := rec_text cH [[49]; [49; 48]; [50; 48]; [97; 13; 98]] in
+  line_fields (rec_text cH tab) = [[49]; [49; 48]; [50; 48]; [97]; [98]]
+  /\ line_fields (rec_text cH tab) <> tab
+  /\ length (file_lines (file_text [nl])) = 2%nat
+  /\ length (file_lines (file_text [cr])) = 2%nat.
+Proof. exact unclean_text_refuted. Qed.
+Print Assumptions C06_unclean_text_refuted.
+
+(* ---- version strings int() cannot parse ------------------------------------------------------- *)
+
+Theorem C06_header_version_unparsable :
+  forall c softly hs v,
+  In v (version_values hs) -> parse3 v = None -> v <> cfg_version c ->
+  is_err (check_header false c true softly hs) = true.
+Proof. exact header_version_unparsable. Qed.
+Print Assumptions C06_header_version_unparsable.
+
+Theorem C06_read_version_unparsable :
+  forall c sel ls v,
+  In v (version_values (header_of ls)) -> parse3 v = None -> v <> cfg_version c ->
+  is_err (read c sel ls) = true.
+Proof. exact read_version_unparsable. Qed.
+Print Assumptions C06_read_version_unparsable.
+
+Example C06_version_unparsable_examples :
+  parse3 [48; 46; 50] = None
+  /\ parse3 [118; 48; 46; 50; 46; 48] = None
+  /\ parse3 [48; 46; 50; 46; 120] = None
+  /\ parse3 [] = None
+  /\ parse3 [32; 48; 46; 48; 50; 46; 49; 95; 48] = Some (0, 2, 10).
+Proof. exact version_unparsable_examples. Qed.
+Print Assumptions C06_version_unparsable_examples.
+
+(* ---- meaning of the roundtrip relation's checker ------------------------------------------------ *)
+
+Theorem C06_holds_roundtrip_sound :
+  forall k,
+  holds_roundtrip k = true ->
+  wf_cfg (w_cfg k) = true -> wf_cfg (w_rcfg k) = true -> sub_cfg (w_rcfg k) (w_cfg k) = true ->
+  wf_data (w_cfg k) (w_data k) = true ->
+  exists b1 logs,
+    w_bytes1 k = Ok b1
+    /\ w_read k = Ok (strip_data (w_data2 k), logs)
+    /\ same_data (w_cfg k) (w_rcfg k) (w_data k) (w_data2 k) = true
+    /\ (w_same k = true -> w_bytes2 k = Ok b1)
+    /\ (w_same k = true -> rt_pre (w_cfg k) (w_data k) = true ->
+        strip_data (w_data2 k) = strip_data (w_data k))
+    /\ (rt_pre2 (w_cfg k) (w_rcfg k) (w_data k) = true ->
+        strip_data (w_data2 k) = strip_data2 (w_cfg k) (w_rcfg k) (w_data k)).
+Proof. exact holds_roundtrip_sound. Qed.
+Print Assumptions C06_holds_roundtrip_sound.
+
+(* ---- the per-line and per-text cores used above --------------------------------------------------- *)
 
 Theorem C06_hap_roundtrip_partial_line :
   forall c t (vals : list fval) toks,
